@@ -46,6 +46,8 @@ def cases(draw):
         "form": draw(st.sampled_from(["closed", "expand"])),
         # the target store already holds an overlapping tree (objects shared with the new data)
         "pre": draw(st.sampled_from([False, False, True])),
+        # S3 only: a second directory sharing files with the first, transferred in the same call
+        "tree2": draw(st.one_of(st.none(), st.none(), gen.trees(max_files=3, max_depth=1, content=gen.small_contents()))),
         "only_n": None,
     }
 
@@ -118,6 +120,17 @@ def make_template(case, tpl):
         ids = [obj.hash_info.value]
         if case["form"] == "closed":
             ids += sorted(set(man.values()))
+        if case.get("tree2"):
+            # shares at least one file with the first directory
+            t2 = dict(case["tree2"])
+            first = sorted(gen.flatten_case(case["tree"]).items())[0]
+            t2["shared-with-first"] = "h:" + first[1].hex()
+            flat2 = gen.materialise(t2, os.path.join(tpl, "ws2"))
+            _, obj2, _ = ops.stage_transfer(cache, os.path.join(tpl, "ws2"))
+            ids.append(obj2.hash_info.value)
+            if case["form"] == "closed":
+                ids += sorted(set(ref.tree_manifest(flat2).values()))
+            ids = sorted(set(ids))
         with open(os.path.join(tpl, "request.txt"), "w", encoding="utf-8") as f:
             f.write("\n".join(ids) + "\n")
     if case.get("pre"):
@@ -276,6 +289,14 @@ def run_case(case, ctx):  # noqa: C901
             want = set(man.values()) | {ref.ref_tree_oid(man)}
             if case.get("pre"):
                 want |= ref.store_ids(target_store(case, tpl))
+            if case["scenario"] == "S3" and case.get("tree2"):
+                want = None  # two directories: the uninterrupted run is the reference
+            if want is None:
+                pass
+            elif ref_ids != want:
+                viols.append(Viol("uninterrupted:contents-differ",
+                                  f"uninterrupted run left {sorted(ref_ids)} expected {sorted(want)}"))
+            want = ref_ids
             if ref_ids != want:
                 viols.append(Viol("uninterrupted:contents-differ",
                                   f"uninterrupted run left {sorted(ref_ids)} expected {sorted(want)}"))
@@ -330,14 +351,43 @@ def run_case(case, ctx):  # noqa: C901
             cl.append("hardlink")
         if case.get("pre"):
             cl.append("target-prepopulated")
+        if case["scenario"] == "S3" and case.get("tree2"):
+            cl.append("two-dirs-sharing-a-file")
         if case["scenario"] == "S3":
             cl += [f"form={case['form']}", "dest-index" if case["index"] else "no-index"]
         # one digest for the scenario itself so samples show up
         return Result([], nontrivial=N > 2, classes=cl, counters=counters)
 
 
+# canonical scenarios: run first in every tier (sharded over the workers) so that each scenario family
+# and the shapes the property names are enumerated even by the small quick tier
+_T = {"a": "p:A", "sub": {"b": "p:B", "c": "p:A"}, "e": "p:empty"}
+CANON = [
+    {"scenario": "S1", "tree": _T, "hardlink": False, "index": False, "form": "closed", "pre": False, "tree2": None},
+    {"scenario": "S1", "tree": _T, "hardlink": True, "index": False, "form": "closed", "pre": True, "tree2": None},
+    {"scenario": "S2", "tree": _T, "hardlink": False, "index": False, "form": "closed", "pre": False, "tree2": None},
+    {"scenario": "S2", "tree": {"d": {"d": {"x": "p:crlf"}}, "y": "p:hello"}, "hardlink": False, "index": False,
+     "form": "closed", "pre": True, "tree2": None},
+    {"scenario": "S3", "tree": _T, "hardlink": False, "index": True, "form": "expand", "pre": False,
+     "tree2": {"z": "p:C"}},
+    {"scenario": "S3", "tree": _T, "hardlink": False, "index": False, "form": "closed", "pre": False,
+     "tree2": {"z": "p:A", "w": {"q": "p:B"}}},
+    {"scenario": "S3", "tree": {"a": "p:A"}, "hardlink": False, "index": True, "form": "closed", "pre": True,
+     "tree2": None},
+    {"scenario": "S4", "tree": _T, "hardlink": False, "index": False, "form": "closed", "pre": False, "tree2": None},
+]
+
+
 def run(ctx):
     ctx.evaluations_are_crash_points = True
+    from ..ctx import Failure
+
+    for i, c in enumerate(CANON):
+        if i % ctx.nworkers == ctx.worker % len(CANON) or ctx.nworkers > len(CANON) and i == ctx.worker % len(CANON):
+            try:
+                ctx.exec_case(dict(c, only_n=None), run_case)
+            except Failure:
+                return
     ctx.run_given(cases(), run_case, ctx.n(quick=4, thorough=70))
 
 
